@@ -4,6 +4,18 @@ use std::time::UNIX_EPOCH;
 
 use rand_core::{OsRng, RngCore};
 
+/// Clock override for the verification harness: `u64::MAX` means "use the system clock".
+#[cfg(humphrey_verif)]
+pub static VERIF_NOW: std::sync::atomic::AtomicU64 = std::sync::atomic::AtomicU64::new(u64::MAX);
+
+#[cfg(humphrey_verif)]
+fn verif_now() -> Option<u64> {
+    match VERIF_NOW.load(std::sync::atomic::Ordering::SeqCst) {
+        u64::MAX => None,
+        now => Some(now),
+    }
+}
+
 /// Represents a session, containing a token and an expiration time.
 #[derive(Default, Clone, PartialEq, Eq)]
 pub struct Session {
@@ -33,6 +45,8 @@ impl Session {
         });
 
         let expiry = UNIX_EPOCH.elapsed().unwrap().as_secs() + lifetime;
+        #[cfg(humphrey_verif)]
+        let expiry = verif_now().map(|now| now + lifetime).unwrap_or(expiry);
 
         Self {
             token: token_hex,
@@ -43,17 +57,25 @@ impl Session {
     /// Returns true if the token is valid.
     pub fn valid(&self) -> bool {
         let now = UNIX_EPOCH.elapsed().unwrap().as_secs();
+        #[cfg(humphrey_verif)]
+        let now = verif_now().unwrap_or(now);
         now < self.expiry
     }
 
     /// Returns true if the token has expired.
     pub fn expired(&self) -> bool {
         let now = UNIX_EPOCH.elapsed().unwrap().as_secs();
+        #[cfg(humphrey_verif)]
+        let now = verif_now().unwrap_or(now);
         self.expiry < now
     }
 
     /// Refreshes the token, setting it to expire the given number of seconds after the current time.
     pub fn refresh(&mut self, lifetime: u64) {
         self.expiry = UNIX_EPOCH.elapsed().unwrap().as_secs() + lifetime;
+        #[cfg(humphrey_verif)]
+        if let Some(now) = verif_now() {
+            self.expiry = now + lifetime;
+        }
     }
 }
